@@ -577,11 +577,12 @@ Section EvaluateSum.
   Variables (vzero : V) (vadd : V -> V -> V).
   Variables (parses : str -> outcome unit) (uses_fact uses_factorial : str -> bool).
   Variable eval_limit : str -> list str -> nat -> outcome pyv.
+  Variable scope_check : str -> list str -> str -> outcome unit.
   Variable eval_term : str -> list str -> str -> Z -> nat -> outcome V.
   Variable cfg : config.
 
-  Local Notation esum := (evaluate_sum vzero vadd parses uses_fact uses_factorial eval_limit eval_term cfg).
-  Local Notation eplan := (evaluate_sum_plan parses uses_fact uses_factorial eval_limit cfg).
+  Local Notation esum := (evaluate_sum vzero vadd parses uses_fact uses_factorial eval_limit scope_check eval_term cfg).
+  Local Notation eplan := (evaluate_sum_plan parses uses_fact uses_factorial eval_limit scope_check cfg).
 
   Definition any_fact (lower upper summand : str) : bool :=
     (uses_fact lower || uses_fact upper || uses_fact summand)
@@ -597,8 +598,10 @@ Section EvaluateSum.
     bind (eval_limit upper scope i) (fun hi =>
     bind (parses summand) (fun _ =>
     bind (evaluate_sum_limits lo hi) (fun _ =>
+    bind (parses summand) (fun _ =>
+    bind (scope_check summand scope var) (fun _ =>
     perform_summation vzero vadd (fun n => eval_term summand scope var n i) lo hi (c_even_odd cfg)
-                      (cutoff_for lower upper summand)))))).
+                      (cutoff_for lower upper summand)))))))).
   Proof.
     intros. unfold evaluate_sum, evaluate_sum_plan, perform_summation, cutoff_for, any_fact.
     rewrite cutoff_choice.
@@ -606,7 +609,8 @@ Section EvaluateSum.
     destruct (eval_limit lower scope i) as [lo|]; [| reflexivity]. cbn [bind].
     destruct (eval_limit upper scope i) as [hi|]; [| reflexivity]. cbn [bind].
     destruct (parses summand); [| reflexivity]. cbn [bind].
-    destruct (evaluate_sum_limits lo hi); reflexivity.
+    destruct (evaluate_sum_limits lo hi); [| reflexivity]. cbn [bind].
+    destruct (scope_check summand scope var); reflexivity.
   Qed.
 
   (* dummy_conflict_error (evaluate_sum part): the summation variable is already bound in the scope *)
@@ -624,8 +628,9 @@ Section EvaluateSum.
     Lemma evaluate_sum_after_limits :
       esum summand lower upper var scope i =
       bind (evaluate_sum_limits lo hi) (fun _ =>
+      bind (scope_check summand scope var) (fun _ =>
       perform_summation vzero vadd (fun n => eval_term summand scope var n i) lo hi (c_even_odd cfg)
-                        (cutoff_for lower upper summand)).
+                        (cutoff_for lower upper summand))).
     Proof. rewrite evaluate_sum_unfold, Hvar, Hlo, Hhi, Hparse. reflexivity. Qed.
 
     (* limit_errors *)
@@ -679,24 +684,26 @@ Section EvaluateSum.
 
     (* integer / infinite limits: the sum over the index set, with the cutoff chosen by the use of factorials *)
     Theorem evaluate_sum_spec : forall l h eo c cf,
+      scope_check summand scope var = Ret tt ->
       lo = pl l -> hi = pl h -> c_even_odd cfg = p_lit eo ->
       c_infty_val cfg = p_lit c -> c_infty_val_fact cfg = p_lit cf ->
       esum summand lower upper var scope i =
       bounds_sum vzero vadd (fun n => eval_term summand scope var n i) eo
                  (code_bounds l h (if any_fact lower upper summand then cf else c)).
     Proof.
-      intros l h eo c cf El Eh Eeo Ec Ecf. rewrite evaluate_sum_after_limits. subst lo hi.
-      rewrite limits_ok. cbn [bind]. rewrite Eeo. unfold cutoff_for. rewrite Ec, Ecf.
+      intros l h eo c cf Hsc El Eh Eeo Ec Ecf. rewrite evaluate_sum_after_limits. subst lo hi.
+      rewrite limits_ok. cbn [bind]. rewrite Hsc. cbn [bind]. rewrite Eeo. unfold cutoff_for. rewrite Ec, Ecf.
       destruct (any_fact lower upper summand); apply perform_summation_spec.
     Qed.
 
     Theorem same_infinity_error : forall eo c cf,
+      scope_check summand scope var = Ret tt ->
       c_even_odd cfg = p_lit eo -> c_infty_val cfg = p_lit c -> c_infty_val_fact cfg = p_lit cf ->
       (lo = pl IPInf /\ hi = pl IPInf -> esum summand lower upper var scope i = Raise (ESummation MPosInf)) /\
       (lo = pl INInf /\ hi = pl INInf -> esum summand lower upper var scope i = Raise (ESummation MNegInf)).
     Proof.
-      intros eo c cf Eeo Ec Ecf. split; intros [El Eh];
-        rewrite (evaluate_sum_spec _ _ eo c cf El Eh Eeo Ec Ecf); reflexivity.
+      intros eo c cf Hsc Eeo Ec Ecf. split; intros [El Eh];
+        rewrite (evaluate_sum_spec _ _ eo c cf Hsc El Eh Eeo Ec Ecf); reflexivity.
     Qed.
   End Limits.
 
@@ -704,11 +711,12 @@ Section EvaluateSum.
   Theorem rename_variable : forall s s' lower upper v v' scope i,
     mem v' scope = mem v scope -> parses s' = parses s ->
     uses_fact s' = uses_fact s -> uses_factorial s' = uses_factorial s ->
+    scope_check s' scope v' = scope_check s scope v ->
     (forall n, eval_term s' scope v' n i = eval_term s scope v n i) ->
     esum s' lower upper v' scope i = esum s lower upper v scope i.
   Proof.
-    intros s s' lower upper v v' scope i Hm Hp Hf Hff Ht.
-    unfold evaluate_sum, evaluate_sum_plan. rewrite Hm, Hp, Hf, Hff.
+    intros s s' lower upper v v' scope i Hm Hp Hf Hff Hsc Ht.
+    unfold evaluate_sum, evaluate_sum_plan. rewrite Hm, Hp, Hf, Hff, Hsc.
     match goal with |- bind ?p _ = bind ?p _ => destruct p as [[[a b] d]|]; [| reflexivity] end.
     cbn [bind sum_range]. unfold sum_over. rewrite (eval_all_ext _ (fun n => eval_term s scope v n i)); [reflexivity|].
     intros; apply Ht.
@@ -811,17 +819,19 @@ Section GraderProofs.
   Variables (vzero : V) (vadd : V -> V -> V) (within : V -> V -> bool).
   Variables (parses : str -> outcome unit) (uses_fact uses_factorial : str -> bool).
   Variable eval_limit : str -> list str -> nat -> outcome pyv.
+  Variable scope_check : str -> list str -> str -> outcome unit.
   Variable eval_term : str -> list str -> str -> Z -> nat -> outcome V.
   Variable valid_name : str -> outcome bool.
   Variable cfg : config.
 
-  Local Notation efields := (evaluate_fields vzero vadd parses uses_fact uses_factorial eval_limit eval_term cfg).
-  Local Notation aeval := (author_eval vzero vadd parses uses_fact uses_factorial eval_limit eval_term cfg).
-  Local Notation geval := (gen_evaluations vzero vadd parses uses_fact uses_factorial eval_limit eval_term cfg).
-  Local Notation rcheck := (raw_check vzero vadd within parses uses_fact uses_factorial eval_limit eval_term cfg).
-  Local Notation chk := (check vzero vadd within parses uses_fact uses_factorial eval_limit eval_term valid_name cfg).
-  Local Notation cl := (call vzero vadd within parses uses_fact uses_factorial eval_limit eval_term valid_name cfg).
-  Local Notation grd := (grade vzero vadd within parses uses_fact uses_factorial eval_limit eval_term valid_name cfg).
+  Local Notation efields := (evaluate_fields vzero vadd parses uses_fact uses_factorial eval_limit scope_check eval_term cfg).
+  Local Notation aeval := (author_eval vzero vadd parses uses_fact uses_factorial eval_limit scope_check eval_term cfg).
+  Local Notation seval := (student_eval vzero vadd parses uses_fact uses_factorial eval_limit scope_check eval_term cfg).
+  Local Notation geval := (gen_evaluations vzero vadd parses uses_fact uses_factorial eval_limit scope_check eval_term cfg).
+  Local Notation rcheck := (raw_check vzero vadd within parses uses_fact uses_factorial eval_limit scope_check eval_term cfg).
+  Local Notation chk := (check vzero vadd within parses uses_fact uses_factorial eval_limit scope_check eval_term valid_name cfg).
+  Local Notation cl := (call vzero vadd within parses uses_fact uses_factorial eval_limit scope_check eval_term valid_name cfg).
+  Local Notation grd := (grade vzero vadd within parses uses_fact uses_factorial eval_limit scope_check eval_term valid_name cfg).
   Local Notation sscope := (student_scope cfg).
 
   (* ---- wrong number of inputs ---- *)
@@ -870,7 +880,7 @@ Section GraderProofs.
 
   (* ---- evaluation of all samples ---- *)
   Lemma gen_evaluations_ok : forall student (A S : nat -> V) todo,
-    (forall i, In i todo -> aeval i = Ret (A i) /\ efields student sscope i = Ret (S i)) ->
+    (forall i, In i todo -> aeval i = Ret (A i) /\ seval student i = Ret (S i)) ->
     geval student todo = Ret (map (fun i => (A i, S i)) todo).
   Proof.
     intros student A S todo. induction todo as [|i todo IH]; intro H; simpl; [reflexivity|].
@@ -880,7 +890,7 @@ Section GraderProofs.
 
   (* author_failure_is_config_error (the guarded part): a library error while evaluating the author's sum *)
   Lemma gen_evaluations_author_failure : forall student todo1 i todo2 e,
-    (forall j, In j todo1 -> exists a s, aeval j = Ret a /\ efields student sscope j = Ret s) ->
+    (forall j, In j todo1 -> exists a s, aeval j = Ret a /\ seval student j = Ret s) ->
     efields (c_answers cfg) (c_scope cfg) i = Raise e -> is_mitx e = true ->
     geval student (todo1 ++ i :: todo2) = Raise EConfig.
   Proof.
@@ -892,8 +902,8 @@ Section GraderProofs.
 
   (* a student-side error at sample i (author fine up to and including i) is passed on unchanged *)
   Lemma gen_evaluations_student_failure : forall student todo1 i todo2 e a,
-    (forall j, In j todo1 -> exists a s, aeval j = Ret a /\ efields student sscope j = Ret s) ->
-    aeval i = Ret a -> efields student sscope i = Raise e ->
+    (forall j, In j todo1 -> exists a s, aeval j = Ret a /\ seval student j = Ret s) ->
+    aeval i = Ret a -> seval student i = Raise e ->
     geval student (todo1 ++ i :: todo2) = Raise e.
   Proof.
     intros student todo1 i todo2 e a. induction todo1 as [|j todo1 IH]; intros Hok Ha He; simpl.
@@ -915,7 +925,7 @@ Section GraderProofs.
 
     Theorem author_failure_is_config_error_guarded : forall i e,
       (i < c_samples cfg)%nat ->
-      (forall j, (j < i)%nat -> exists a s, aeval j = Ret a /\ efields fields sscope j = Ret s) ->
+      (forall j, (j < i)%nat -> exists a s, aeval j = Ret a /\ seval fields j = Ret s) ->
       efields (c_answers cfg) (c_scope cfg) i = Raise e -> is_mitx e = true ->
       cl tp inputs = Raise EConfig.
     Proof.
@@ -927,8 +937,8 @@ Section GraderProofs.
 
     Theorem student_error_is_passed_on : forall i e a,
       (i < c_samples cfg)%nat ->
-      (forall j, (j < i)%nat -> exists a s, aeval j = Ret a /\ efields fields sscope j = Ret s) ->
-      aeval i = Ret a -> efields fields sscope i = Raise e -> e <> EOther ->
+      (forall j, (j < i)%nat -> exists a s, aeval j = Ret a /\ seval fields j = Ret s) ->
+      aeval i = Ret a -> seval fields i = Raise e -> e <> EOther ->
       cl tp inputs = Raise e.
     Proof.
       intros i e a Hi Hok Ha He Hne. unfold call. rewrite check_is_raw_check. unfold raw_check. rewrite Hparse. cbn [bind].
@@ -940,7 +950,7 @@ Section GraderProofs.
 
     (* the verdict: with failable_evals = 0, correct exactly when every sample is within tolerance *)
     Theorem verdict_general : forall (A S : nat -> V),
-      (forall i, (i < c_samples cfg)%nat -> aeval i = Ret (A i) /\ efields fields sscope i = Ret (S i)) ->
+      (forall i, (i < c_samples cfg)%nat -> aeval i = Ret (A i) /\ seval fields i = Ret (S i)) ->
       cl tp inputs = Ret (consolidate (map (fun i => within (A i) (S i)) (seq 0 (c_samples cfg))) (c_failable cfg)).
     Proof.
       intros A S H. unfold call. rewrite check_is_raw_check. unfold raw_check. rewrite Hparse. cbn [bind].
@@ -951,7 +961,7 @@ Section GraderProofs.
 
     Theorem graded_correct_iff : forall (A S : nat -> V),
       c_failable cfg = O ->
-      (forall i, (i < c_samples cfg)%nat -> aeval i = Ret (A i) /\ efields fields sscope i = Ret (S i)) ->
+      (forall i, (i < c_samples cfg)%nat -> aeval i = Ret (A i) /\ seval fields i = Ret (S i)) ->
       exists b, cl tp inputs = Ret b /\
                 (b = true <-> forall i, (i < c_samples cfg)%nat -> within (A i) (S i) = true).
     Proof.
@@ -976,12 +986,40 @@ Section GraderProofs.
   Qed.
 
   Lemma other_vars_visible : forall v, mem v (blacklist cfg) = false -> mem v sscope = mem v (c_scope cfg).
-  Proof.
+  Proof using cfg.
     intros v Hb. unfold student_scope. apply eq_true_iff_eq. rewrite !mem_In, filter_In. split.
-    - tauto.
+    - intros [H _]. exact H.
     - intro H. split; [exact H | rewrite Hb; reflexivity].
   Qed.
+
 End GraderProofs.
+
+Section StudentEval.
+  Context {V : Type}.
+  Variables (vzero : V) (vadd : V -> V -> V).
+  Variables (parses : str -> outcome unit) (uses_fact uses_factorial : str -> bool).
+  Variable eval_limit : str -> list str -> nat -> outcome pyv.
+  Variable scope_check : str -> list str -> str -> outcome unit.
+  Variable eval_term : str -> list str -> str -> Z -> nat -> outcome V.
+  Variable cfg : config.
+  Local Notation efields := (evaluate_fields vzero vadd parses uses_fact uses_factorial eval_limit scope_check eval_term cfg).
+  Local Notation seval := (student_eval vzero vadd parses uses_fact uses_factorial eval_limit scope_check eval_term cfg).
+  Local Notation sscope := (student_scope cfg).
+
+  (* dummy_conflict_error, full strength: EVERY name bound in the sample dictionaries (variables, constants, also the
+     instructor-only ones) is refused as the student's summation variable *)
+  Theorem dummy_in_problem_scope_error : forall student i,
+    mem (f_var student) (c_scope cfg) = true -> seval student i = Raise (ESummation MConflict).
+  Proof.
+    intros student i H. unfold student_eval.
+    destruct (mem (f_var student) (blacklist cfg)) eqn:B; [reflexivity|].
+    unfold evaluate_fields. apply dummy_in_scope_error. rewrite (other_vars_visible cfg (f_var student) B). exact H.
+  Qed.
+
+  Lemma student_eval_other : forall student i,
+    mem (f_var student) (blacklist cfg) = false -> seval student i = efields student sscope i.
+  Proof. intros student i B. unfold student_eval. rewrite B. reflexivity. Qed.
+End StudentEval.
 
 (* ================================================================================================ *)
 (* G. instructor-only variables in the student's fields                                               *)
@@ -991,37 +1029,48 @@ Section InstructorVars.
   Variables (vzero : V) (vadd : V -> V -> V).
   Variables (parses : str -> outcome unit) (uses_fact uses_factorial : str -> bool).
   Variable eval_limit : str -> list str -> nat -> outcome pyv.
+  Variable scope_check : str -> list str -> str -> outcome unit.
   Variable eval_term : str -> list str -> str -> Z -> nat -> outcome V.
   Variable cfg : config.
   (* the evaluator checks the scope before it evaluates (C09 / C10): an expression mentioning a name that is not in
-     the scope it is given raises the undefined-variable error *)
+     the scope it is given raises the undefined-variable error; check_scope is that very test *)
   Variable mentions : str -> str -> bool.
   Hypothesis limit_scope_checked : forall s sc i v,
     mentions s v = true -> mem v sc = false -> eval_limit s sc i = Raise ECalc.
-  Hypothesis term_scope_checked : forall s sc x n i v,
-    mentions s v = true -> mem v sc = false -> str_eqb v x = false -> eval_term s sc x n i = Raise ECalc.
+  Hypothesis summand_scope_checked : forall s sc x v,
+    mentions s v = true -> mem v sc = false -> str_eqb v x = false -> scope_check s sc x = Raise ECalc.
 
-  Local Notation esum := (evaluate_sum vzero vadd parses uses_fact uses_factorial eval_limit eval_term cfg).
-  Local Notation eplan := (evaluate_sum_plan parses uses_fact uses_factorial eval_limit cfg).
+  Local Notation esum := (evaluate_sum vzero vadd parses uses_fact uses_factorial eval_limit scope_check eval_term cfg).
 
-  Lemma first_term_error : forall summand lower upper var scope i a b d k rest e,
-    eplan summand lower upper var scope i = Ret (a, b, d) -> zrange a b d = k :: rest ->
-    eval_term summand scope var k i = Raise e ->
-    esum summand lower upper var scope i = Raise e.
+  (* wherever the instructor variable is used, the student's sum is never evaluated to a value ... *)
+  Theorem instructor_var_never_evaluates : forall summand lower upper var v i,
+    In v (c_instructor cfg) -> mem v (c_scope cfg) = true -> str_eqb v var = false ->
+    mentions lower v = true \/ mentions upper v = true \/ mentions summand v = true ->
+    exists e, esum summand lower upper var (student_scope cfg) i = Raise e.
   Proof.
-    intros summand lower upper var scope i a b d k rest e Hp Hr He.
-    unfold evaluate_sum. rewrite Hp. cbn [bind sum_range]. rewrite Hr. unfold sum_over. simpl. rewrite He. reflexivity.
+    intros summand lower upper var v i Hi Hs Hx Hm.
+    pose proof (instructor_var_hidden cfg v Hi Hs) as Hid.
+    rewrite evaluate_sum_unfold.
+    destruct (evaluate_sum_pre (tb (mem var (student_scope cfg)))) as [u|e]; [| exists e; reflexivity]. cbn [bind].
+    destruct (eval_limit lower (student_scope cfg) i) as [lo|e] eqn:El; [| exists e; reflexivity]. cbn [bind].
+    destruct (eval_limit upper (student_scope cfg) i) as [hi|e] eqn:Eh; [| exists e; reflexivity]. cbn [bind].
+    destruct (parses summand) as [u1|e]; [| exists e; reflexivity]. cbn [bind].
+    destruct (evaluate_sum_limits lo hi) as [u2|e]; [| exists e; reflexivity]. cbn [bind].
+    destruct Hm as [Hm | [Hm | Hm]].
+    - rewrite (limit_scope_checked lower _ i v Hm Hid) in El. discriminate.
+    - rewrite (limit_scope_checked upper _ i v Hm Hid) in Eh. discriminate.
+    - rewrite (summand_scope_checked summand _ var v Hm Hid Hx). exists ECalc. reflexivity.
   Qed.
 
+  (* ... and when the rest of the submission is well-formed the error is the evaluator's undefined-variable error,
+     also when the index set is empty *)
   Theorem instructor_var_rejected : forall summand lower upper var v i,
     In v (c_instructor cfg) -> mem v (c_scope cfg) = true -> mem var (student_scope cfg) = false ->
-    (* in the lower limit *)
     (mentions lower v = true -> esum summand lower upper var (student_scope cfg) i = Raise ECalc) /\
-    (* in the upper limit (the lower one evaluates) *)
     (forall lo, eval_limit lower (student_scope cfg) i = Ret lo -> mentions upper v = true ->
        esum summand lower upper var (student_scope cfg) i = Raise ECalc) /\
-    (* in the summand, provided at least one term is summed *)
-    (forall a b d, eplan summand lower upper var (student_scope cfg) i = Ret (a, b, d) -> zrange a b d <> [] ->
+    (forall lo hi, eval_limit lower (student_scope cfg) i = Ret lo -> eval_limit upper (student_scope cfg) i = Ret hi ->
+       parses summand = Ret tt -> evaluate_sum_limits lo hi = Ret tt ->
        mentions summand v = true -> str_eqb v var = false ->
        esum summand lower upper var (student_scope cfg) i = Raise ECalc).
   Proof.
@@ -1032,8 +1081,8 @@ Section InstructorVars.
       rewrite (limit_scope_checked lower _ i v Hm Hid). reflexivity.
     - intros lo Hlo Hm. rewrite evaluate_sum_unfold, Hvar. cbn [tb evaluate_sum_pre tif bind].
       rewrite Hlo. cbn [bind]. rewrite (limit_scope_checked upper _ i v Hm Hid). reflexivity.
-    - intros a b d Hp Hne Hm Hx. destruct (zrange a b d) as [|k rest] eqn:Hr; [contradiction|].
-      apply (first_term_error summand lower upper var _ i a b d k rest ECalc Hp Hr).
-      apply (term_scope_checked summand _ var k i v Hm Hid Hx).
+    - intros lo hi Hlo Hhi Hp Hl Hm Hx. rewrite evaluate_sum_unfold, Hvar. cbn [tb evaluate_sum_pre tif bind].
+      rewrite Hlo, Hhi. cbn [bind]. rewrite Hp. cbn [bind]. rewrite Hl. cbn [bind].
+      rewrite (summand_scope_checked summand _ var v Hm Hid Hx). reflexivity.
   Qed.
 End InstructorVars.
